@@ -3,9 +3,11 @@ CONSTANTS
   Cycles = 2
   Lost = {}
   LostKinds = {}
-  MCCtors = {"c.para", "c.headingbm", "c.tbl.2x2"}
-  MCFeats = {"p.keepNext.on", "p.bold.on", "p.format.full", "t.nested.d1", "t.merge.h", "p.addbreak"}
-  MCSect = {"s.titlepg.on"}
+  Alias = {}
+  MCCtors = {"c.para", "c.headingbm", "c.tbl.2x2", "c.ntbl.d1.2x2"}
+  MCFeats = {"p.keepNext.on", "p.bold.on", "p.format.full", "t.nested.d1", "t.merge.h", "p.addbreak", "t.cellimage"}
+  MCSect = {"s.titlepg.on", "s.header.default", "s.header.first"}
+  MCSectMax = 2
   MinF = 0
   MaxF = 0
   SingleCtors = {}
@@ -14,6 +16,6 @@ CONSTANTS
   FocusKinds = {}
   CtxMode = "one"
   PreSaves = {FALSE}
-INVARIANTS Inv_Identity Inv_Silent Inv_Exact Inv_NothingEarly
+INVARIANTS Inv_Identity Inv_Silent Inv_Exact Inv_NothingEarly Inv_AliasKeepsShape
 PROPERTIES Act_SavePure Act_OpenReads
 CHECK_DEADLOCK FALSE
